@@ -1,6 +1,9 @@
 """C04 Tokenizer vocabulary maps are mutually consistent bijections: id-space agreement rules."""
+import re
+from analysis import cfg
+from analysis.facts import norm_path
 from analysis.engine import rule, AnchorMissing
-from analysis.sym import sym, show_in, nosite, peel, core, walk, ret_values, args_of, cmp_facts_at, agg_field
+from analysis.sym import sym, show_in, nosite, peel, core, walk, ret_values, args_of, cmp_facts_at, agg_field, atoms_at, variant_facts_at, init_value
 from analysis.pat import match, Call, Cap, ANY, Pred, Const, has, chain_names
 from rules.common import body_for, bpe_body, closure_of, BPE, BYTE
 from rules import bpe_ids
@@ -100,6 +103,19 @@ def r3(ctx):
         elif 'enumerate' in names:
             fwd = (c, ch, names, src)
     if fwd is None or rev is None:
+        # loop form: `for tok in tokens { if vocab.contains_key(&tok) { continue }  vocab.insert(tok, start_id + n) .. }` -- the one
+        # thing that can be decided without the chain: an id is handed only to a token that is not in the map yet
+        ins = [t for t in b.calls(r'HashMap::insert$') if cfg.innermost_loop(b, t.bb) is not None and t.args[0].place is not None and
+               re.search(r'HashMap<Token, u32>', b.local_ty(t.args[0].place.local))]
+        for t in ins:
+            mp = nosite(core(sym(b, t.args[0])))
+            key = nosite(core(sym(b, t.args[1])))
+            guarded = any(pol is False and match(core(tt), Call('HashMap::contains_key', Pred(lambda u: nosite(core(u)) == mp), ANY)) for tt, pol, g in atoms_at(b, t.bb)) or \
+                any(n_ == {'Vacant'} or n_ == {'None'} for tt, n_ in variant_facts_at(b, t.bb)) or \
+                any(isinstance(x, tuple) and x and x[0] == 'call' and x[1].endswith('unique') for x in walk(init_value(b, sym(b, t.args[1]))))
+            ctx.require(guarded, b, 'forward-dedup', 'an id is assigned only to a token that is not in the vocabulary yet (line %d)' % t.span['line'],
+                        'Vocab::build inserts every token under a fresh id (line %d) without skipping tokens it has already seen: a token that occurs twice is '
+                        're-assigned an id that the next new token also receives -- two tokens share one id' % t.span['line'], t.span)
         raise AnchorMissing('Vocab::build forward / reverse map construction')
     c, ch, names, src = fwd
     ctx.require(names == ['unique', 'enumerate', 'map', 'collect'][:len(names)] and names[:3] == ['unique', 'enumerate', 'map']
@@ -202,3 +218,48 @@ def r6(ctx):
                 good = False
         ctx.require(good, b, 'frame-ids|' + cfg_fld, '%s = special_vocab.token_to_id(tok) for each configured %s token' % (fld, cfg_fld),
                     '%s is %s %s' % (fld, show_in(b, v) if v is not None else '?', why))
+
+
+@rule('C04', 'R-C04-7', 'T11 SIBLING (lookup order and unit of token_to_id)',
+      'every token_to_id consults the special vocabulary FIRST and returns its id when it has one (a special token that also parses '
+      'as a regular token is otherwise unreachable); the BPE byte-token branch is taken for a token of exactly one BYTE '
+      '(`as_bytes().len() == 1` / a one-element slice pattern), not one character')
+def r7(ctx):
+    from analysis.alts import ret_alts_paths, consistent
+    cands = [b for b in ctx.facts.bodies if b.path.endswith('::token_to_id') and b.kind != 'Closure' and b.impl_trait and norm_path(b.impl_trait).endswith('Tokenize')
+             and b.file() == 'src/tokenization.rs' and 'Huggingface' not in str(b.impl_self)]
+    # the vocabulary tokenizer (generic over VocabTokenize) and the BPE tokenizer; the byte tokenizer resolves one-byte strings first by
+    # design and the dummy tokenizer has no vocabulary
+    cands = [b for b in cands if (b.impl_self and BPE in b.impl_self) or any('VocabTokenize' in p_ for p_ in b.preds_decl)]
+    if len(cands) != 2:
+        raise AnchorMissing('token_to_id of the vocabulary and BPE tokenizers (found %d)' % len(cands))
+    SPEC = Call('Vocab::token_to_id', ('field', ('arg', 1, ANY), 'special_vocab'), ('arg', 2, ANY))
+    for b in cands:
+        ctx.stats['bodies_inspected'].add(b.path)
+        sp = [t for t in b.calls(r'Vocab::token_to_id$') if match(core(sym(b, t.args[0])), ('field', ('arg', 1, ANY), 'special_vocab')) and match(core(sym(b, t.args[1])), ('arg', 2, ANY))]
+        if len(sp) != 1:
+            ctx.fail(b, 'special-first', '%s does not look the token up in the special vocabulary exactly once (found %d)' % (norm_path(b.path), len(sp)))
+            continue
+        spv = ('call', sp[0].callee_res(), tuple(nosite(sym(b, a_)) for a_ in sp[0].args))
+        al = ret_alts_paths(ctx.facts, b)
+        if al is None:
+            raise AnchorMissing('paths of token_to_id')
+        bad = []
+        for a in al:
+            if not consistent(a):
+                continue
+            v = peel(a.value)
+            from_special = any(isinstance(x, tuple) and nosite(x) == spv for x in walk(a.value))
+            known_none = any(nosite(t) == spv and set(n) == {'None'} for t, n in a.variants)
+            if not from_special and not known_none and not (v[0] == 'agg' and v[2].endswith('Option::None') and False):
+                bad.append(a)
+        ctx.require(not bad, b, 'special-first', '%s: every id that does not come from the special vocabulary is returned only after the special lookup said None' % norm_path(b.path),
+                    '%s returns `%s` on a path where the special vocabulary was not consulted or did not say None: a special token that also parses as a '
+                    'regular token maps to the wrong id or to nothing' % (norm_path(b.path), show_in(b, bad[0].value)[:80] if bad else ''), sp[0].span)
+    bpe = [b for b in cands if b.impl_self and BPE in b.impl_self]
+    if len(bpe) == 1:
+        b = bpe[0]
+        chars = [t for t in b.calls(r'str::chars$|Chars.*::count$|str::char_indices$')]
+        ctx.require(not chars, b, 'byte-unit', 'BPE token_to_id measures the token in bytes', 'BPE token_to_id counts characters (`%s`, line %d): a merge token that is ONE multi-byte '
+                    'character is answered with the value of its first byte instead of 256 + merge id' % ((chars[0].callee_res() or '').rsplit('::', 1)[-1] if chars else '', chars[0].span['line'] if chars else 0),
+                    chars[0].span if chars else None)
